@@ -396,6 +396,21 @@ namespace
     }
 
     // ------------------------------------------------------------------ mode 2: free-running stress
+    // Virtual wall clock (include/hgraph/util/verif_hook.h; HGRAPH_VERIF=1 is set in main): the real clock
+    // rounded down to a granule (coarse), or frozen at its first reading.  With a backlog the loop then runs
+    // consecutive no-wait cycles at a wall clock that does not move: the engine must still advance by at
+    // least MIN_TD per cycle (advance_realtime: max(wall, last + MIN_TD)).
+    std::atomic<i64> g_clock_granule{0};   // 0 real clock, > 0 granule in microseconds, < 0 frozen
+    std::atomic<i64> g_clock_frozen{0};
+    i64 virtual_clock_cb(void *)
+    {
+        const i64 real = us(hgraph::testing::wall_now());
+        const i64 g    = g_clock_granule.load(std::memory_order_acquire);
+        if (g > 0) { return real / g * g; }
+        if (g < 0) { return g_clock_frozen.load(std::memory_order_acquire); }
+        return real;
+    }
+
     struct SendRec { i64 p, k, v, blocking, result, b, a; };
 
     std::uint64_t mix(std::uint64_t x)
@@ -442,7 +457,11 @@ namespace
         std::shared_future<void> started = started_promise.get_future().share();
         w.on_started = [&] { started_promise.set_value(); };
 
-        const DateTime start = hgraph::testing::wall_now();
+        const i64 clock_mode = c[0].size() > 9 ? c[0][9] : 0;
+        g_clock_granule.store(clock_mode, std::memory_order_release);
+        g_clock_frozen.store(us(hgraph::testing::wall_now()), std::memory_order_release);
+        if (clock_mode != 0) { verif::hooks().wall_clock.store(&virtual_clock_cb, std::memory_order_release); }
+        const DateTime start = clock_mode != 0 ? dt(virtual_clock_cb(nullptr)) : hgraph::testing::wall_now();
         // the only wake-ups are pushes and the stop request: no slice time-outs, no end-of-run
         build_world(w, obs, start, start + TimeDelta{3'600'000'000LL}, TimeDelta{3'600'000'000LL});
         auto view = w.executor->view();
@@ -587,6 +606,7 @@ namespace
         sender = PushSourceSender{};
         w.senders.clear();
         w.executor.reset();
+        verif::hooks().wall_clock.store(nullptr, std::memory_order_release);
         case_done = true;
         watchdog.join();
     }
@@ -595,6 +615,7 @@ namespace
 int main(int argc, char **argv)
 {
     if (argc < 2) { std::fprintf(stderr, "usage: pushq_driver <batch>\n"); return 2; }
+    setenv("HGRAPH_VERIF", "1", 1);   // enables the wall-clock provider of verif_hook.h (installed per case)
     auto     batch = hgv::read_batch(argv[1]);
     hgv::Out out;
     for (const auto &c : batch)
